@@ -42,6 +42,8 @@ struct loopthr {
 	_Atomic int	ready;
 	_Atomic int	main_returned;
 	_Atomic int	torn;
+	int		reenter;	/* a handler called iv_quit() and wants iv_main() entered again */
+	long		reentries;
 	void		*scn;
 };
 
@@ -58,11 +60,24 @@ static void scn_after_main(struct loopthr *lt);		/* iv_main returned */
 static void scn_quiescent_check(void);			/* nothing can happen any more: evaluate obligations (all threads are stopped) */
 static int  scn_next_phase(void);			/* at quiescence before tear-down: return 1 if the scenario applied a stimulus of its own */
 
+/* every call-back the library makes into the harness says so (the spin monitor below tells "dispatched nothing" from "busy") */
+static __thread uint64_t mt_cbs;
+#define MT_CB() (mt_cbs++)
+
+/* from a handler: leave iv_main() now and enter it again at once (the loop keeps everything that is registered) */
+static inline void mt_quit_reenter(struct loopthr *lt)
+{
+	lt->reenter = 1;
+	iv_quit();
+}
+
 static void mt_ctl_cb(void *cookie)
 {
 	struct loopthr *lt = cookie;
 	char buf[16];
 	long n = __real_read(lt->ctl[0], buf, sizeof(buf)), i;
+
+	MT_CB();
 
 	for (i = 0; i < n; i++) {
 		scn_ctl(lt, buf[i]);
@@ -89,7 +104,13 @@ static void *mt_loop_main(void *v)
 	iv_fd_register(lt->ctlfd);
 	scn_setup(lt);
 	atomic_store(&lt->ready, 1);
-	iv_main();
+	for (;;) {
+		iv_main();
+		if (!lt->reenter)
+			break;
+		lt->reenter = 0;
+		lt->reentries++;
+	}
 	atomic_store(&lt->main_returned, 1);
 	scn_after_main(lt);
 	iv_deinit();
@@ -137,6 +158,37 @@ static void mt_join_loops(void)
 		__real_close(loops[i].ctl[1]);
 	}
 }
+
+#ifdef MT_SPIN_MONITOR
+/*
+ * A loop thread whose poll call reports ready descriptors 3000 times in a row without the library making a single
+ * call-back in between dispatches nothing and never blocks: virtual time stands still and no quiescence comes.  The
+ * harness says which obligation that leaves open (scn_spin); the case ends here.
+ */
+static void scn_spin(struct loopthr *lt, struct vt_wait *w);
+static __thread uint64_t mt_spin_mark;
+static __thread int mt_spin_n;
+
+void hk_wait_return(struct vt_wait *w)
+{
+	int i;
+
+	if (w->ret > 0 && !w->injected && mt_cbs == mt_spin_mark) {
+		if (++mt_spin_n < 3000)
+			return;
+		for (i = 0; i < nloops; i++)
+			if (pthread_equal(loops[i].th, pthread_self()))
+				break;
+		if (i < nloops)
+			scn_spin(&loops[i], w);
+		mon_printf("NOTE loop thread spins: 3000 consecutive poll returns with ready descriptors and no call-back\n");
+		mon_printf("CASE id=%ld spin=1 viol=%d\n", mon_case_id, mon_viol_case);
+		_exit(mon_viol_case ? 3 : 2);
+	}
+	mt_spin_mark = mt_cbs;
+	mt_spin_n = 0;
+}
+#endif
 
 int hk_quiescent(void)
 {
